@@ -663,7 +663,6 @@ CANONICAL = {
     "C19-comment-dropped-outside-lists": "1 /*c1q*/ + /*c2q*/ 2",
     "C19-empty-block-comment-dropped": "[/**/ 1]",
     "C19-plus-dropped-on-function-field": "{ a+: function(x) x }",
-    "C20-diag-range-underflow": "+1",
     "C20-rowan-import-nonstring-panic": "import 1",
     "C20-dprint-debug-tab-newline": "// a\tb\n1",
     "C20-hidoc-annotation-oob": "~/*missing Expr*/\n",
@@ -673,6 +672,12 @@ CANONICAL = {
     "C20-whitespace-unstable-near-comments": "f( /*c1q*/ )",
     "C20-rowan-function-without-paren-panic": "function x",
     "C20-rowan-bump-at-eof-panic": "@'v' [ /*/ { ;",
+}
+
+
+# fixed findings: input -> behaviour now REQUIRED (checked as obligations by the C20 check)
+FIXED = {
+    "C20-diag-range-underflow": ("+1", "diag"),   # eafd98a: a diagnostic, not a panic
 }
 
 
@@ -703,6 +708,9 @@ def build_cases(run, quick_scale=1.0):
     for fid, src in CANONICAL.items():
         cases.append({"src": src, "comments": [], "style": "canonical", "risky": [], "features": {},
                       "stream": "canonical", "canonical": fid})
+    for fid, (src, _want) in FIXED.items():
+        cases.append({"src": src, "comments": [], "style": "canonical", "risky": [], "features": {},
+                      "stream": "fixed", "fixed": fid})
     return cases
 
 
@@ -950,8 +958,6 @@ def classify_panic(case, o, msg, text, first):
         return "C20-dprint-debug-tab-newline"
     if "Debug panic! Found a newline" in msg and "\n" in text:
         return "C20-dprint-debug-tab-newline"
-    if "jrsonnet-formatter/src/lib.rs" in msg and "attempt to subtract with overflow" in msg:
-        return "C20-diag-range-underflow"
     if "jrsonnet-rowan-parser/src/parser.rs" in msg and "Text::can_cast" in msg and "import" in text:
         return "C20-rowan-import-nonstring-panic"
     if "hi-doc" in msg and "out of bounds annotation" in msg:
